@@ -632,6 +632,27 @@ pub fn cmd_check(prop: &str, tier: &str) {
     let mut violations = 0;
     let mut kf_lines: Vec<String> = Vec::new();
     let mut vio_lines: Vec<String> = Vec::new();
+    // every listed (open) finding of this property is demonstrated from its committed minimal
+    // record on the current tree; the KNOWN-FINDING line is printed exactly when it reproduces
+    for k in kfs.iter().filter(|k| k.get("status").and_then(|s| s.as_str()) == Some("open") && k.get("property").and_then(|s| s.as_str()) == Some(prop)) {
+        let Some(rp) = k.get("replay").and_then(|s| s.as_str()) else { continue };
+        let path = format!("{}/{}", verif_dir(), rp);
+        let Ok(txt) = std::fs::read_to_string(&path) else {
+            harness_errors.push(format!("known finding {}: replay file {} is missing", k["id"], path));
+            continue;
+        };
+        let Ok(rec) = serde_json::from_str::<Replay>(&txt) else {
+            harness_errors.push(format!("known finding {}: replay file {} does not parse", k["id"], path));
+            continue;
+        };
+        let reproduced = eval_subprocess(&rec, "known")
+            .map(|e| e.violations.iter().any(|v| match_known(std::slice::from_ref(k), &v.prop, &v.class, &v.msg).is_some()))
+            .unwrap_or(false);
+        Stats::bump(&mut stats.extra, if reproduced { "known_findings_demonstrated" } else { "known_findings_not_reproduced" }, 1);
+        if reproduced {
+            kf_lines.push(format!("KNOWN-FINDING: property={} {}", prop, k.get("what").and_then(|s| s.as_str()).unwrap_or("")));
+        }
+    }
     for (class, r) in found.iter() {
         if r.property == "HARNESS" {
             harness_errors.push(format!("{}: {}", class, r.msg));
@@ -639,7 +660,14 @@ pub fn cmd_check(prop: &str, tier: &str) {
         }
         let small = crate::shrink::minimise(r, 60.0);
         if let Some(what) = match_known(&kfs, &small.property, &small.class, &small.msg) {
-            kf_lines.push(format!("KNOWN-FINDING: property={} {}", small.property, what));
+            let line = format!("KNOWN-FINDING: property={} {}", small.property, what);
+            if !kf_lines.contains(&line) {
+                kf_lines.push(line);
+            }
+            // keep the minimised record next to the replays (not a violation)
+            let dir = format!("{}/replays", out_dir());
+            let _ = std::fs::create_dir_all(&dir);
+            let _ = std::fs::write(format!("{}/known-{}-{}.json", dir, small.property, small.class), serde_json::to_string_pretty(&small).unwrap());
             continue;
         }
         let dir = format!("{}/replays", out_dir());
